@@ -8,6 +8,7 @@ import CfVerif.Proofs.C06Read
 import CfVerif.Proofs.C06Write
 import CfVerif.Proofs.C06Live
 import CfVerif.Proofs.C06Deck
+import CfVerif.Proofs.C06Retry
 namespace CfVerif.C06
 open CfVerif
 
@@ -774,6 +775,73 @@ theorem deck_read_record_must_always_be_cleared :
     dget? (crun dv ⟨St.init, Deck.new 5⟩ evs).1.s.reads 5 = none ∧
     (cstep dv (crun dv ⟨St.init, Deck.new 5⟩ evs).1 (.dread 800 300 0 4 2 false)).res = .raised .other := by decide
 
+/-! ## Links that need resending: no retransmission outlives its request
+
+On a `needs_resending` link `Crazyflie.send_packet` records, for every chunk request, the pattern
+`(header,) + expected_reply` with a retry timer; a received packet that starts with a recorded pattern cancels it
+(before `Memory` sees the packet); a timer that fires while recorded transmits the SAME packet again.
+`expected_reply` is the tuple of the first five bytes `id, addr32` of that very chunk packet (`gen_expected_reply`),
+so the entry of a chunk is `(channel, packet)` with pattern `(channel, packet[:5])` (`rstep`, `Retry`).
+`RAdm`: requests well-formed; received packets ARBITRARY (duplicates, delays, stale, forged) except that a reply
+with an error status names the chunk that is outstanding (`Ev.ErrAtCur`: the device answers a retransmitted packet
+like the packet itself - `devWrite_idem` - and A1). -/
+
+/-- the expected-reply tuple of a chunk is built from the packet of THAT chunk, and the Crazyflie object matches
+received packets against `(header,) + expected_reply` by prefix -/
+theorem gen_expected_reply :
+    Gen.C06.readExpArgs = ["pk.data[:-1]"] ∧ Gen.C06.writeExpArgs = ["pk.data"] ∧
+    Gen.C06.readExpFmt = "<BBBBB" ∧ Gen.C06.writeExpFmt = "<BBBBB" ∧
+    Gen.C06.readSend = ["self.cf.send_packet(pk, expected_reply=reply, timeout=1)"] ∧
+    Gen.C06.writeSend = ["self.cf.send_packet(pk, expected_reply=reply, timeout=1)"] ∧
+    Gen.C06.retryPatternAssigns = ["pattern = (pk.header,) + expected_reply", "pattern = expected_reply",
+      "self._answer_patterns[pattern] = new_timer"] ∧
+    Gen.C06.retryArmTests = ["len(expected_reply) > 0 and (not resend) and link.needs_resending"] ∧
+    Gen.C06.retryMatchCompares = ["len(self._answer_patterns) > 0", "len(p) <= len(data)", "p == data[0:len(p)]",
+      "len(match) >= len(longest_match)", "len(longest_match) > 0"] ∧
+    Gen.C06.retryMatchAssigns = ["longest_match = ()", "data = (pk.header,) + tuple(pk.data)", "match = data[0:len(p)]",
+      "longest_match = match"] ∧
+    Gen.C06.retryMatchCalls = ["self._answer_patterns[longest_match].cancel()", "del self._answer_patterns[longest_match]"] ∧
+    Gen.C06.retryHooks = ["self.packet_received.add_callback(self._check_for_answers)"] := by decide
+
+/-- **At any time the only retransmissions that can still happen are those of the chunk that is outstanding right
+now**: every recorded entry carries the address of the current chunk of a recorded read, or of the head of a write
+queue - over all admissible histories, with or without `needs_resending`. -/
+theorem retransmissions_only_of_outstanding_chunks (resend : Bool) (evs : List Ev) (ha : RAdm resend ⟨St.init, []⟩ evs) :
+    ∀ e ∈ (rrun resend ⟨St.init, []⟩ evs).1.retry, ∃ id, EntryFor (rrun resend ⟨St.init, []⟩ evs).1.s id e :=
+  (rrun_inv resend evs RetryInv.init ha).entries
+
+/-- **After completion no retransmission is pending**: once nothing is recorded for a memory (its requests were
+notified with success or failure, or the link dropped) no packet of that memory will ever be transmitted again - so a
+later write that covers the same range cannot be overwritten by a stale chunk. -/
+theorem no_retransmission_pending_after_completion (resend : Bool) (evs : List Ev) (ha : RAdm resend ⟨St.init, []⟩ evs)
+    (id : Nat) (hid : id < 256)
+    (hr : dget? (rrun resend ⟨St.init, []⟩ evs).1.s.reads id = none)
+    (hq : (rrun resend ⟨St.init, []⟩ evs).1.s.queue id = []) :
+    ∀ e ∈ (rrun resend ⟨St.init, []⟩ evs).1.retry, e.2.head? ≠ some (UInt8.ofNat id) :=
+  (rrun_inv resend evs RetryInv.init ha).none_for_idle hid hr hq
+
+/-- **Every chunk's expected reply is matched by the answer the device sends for it**: the answer comes on the
+channel of the request and starts with its five bytes `id, addr32`, so delivering it cancels exactly the entry that
+was recorded for that chunk. -/
+theorem device_answer_cancels_its_entry (d : Device) (f : UInt8) (c : Nat) (pkt : List UInt8) (rs : Retry)
+    (p : Packet) (hp : p ∈ (devHandle d f c pkt).2) (h5 : 5 ≤ p.2.length) :
+    (c, pkt) ∉ retryCancel (rs ++ [(c, pkt)]) p.1 p.2 := by
+  obtain ⟨h1, h2⟩ := devHandle_echo d f c pkt p hp
+  rw [h1]; exact answer_cancels_its_entry rs c pkt p.2 h5 h2
+
+/-- a retransmission of the outstanding write chunk (legitimate: its acknowledgement has not arrived yet) does not
+change the device memory beyond the first transmission and is acknowledged with success again -/
+theorem retransmitted_write_is_idempotent {d : Device} {id a : Nat} {body : List UInt8} (h : (devWrite d id a body).2 = 0) :
+    devWrite (devWrite d id a body).1 id a body = devWrite d id a body := devWrite_idem h
+
+/-- necessity of matching on the address of THAT chunk: if the entry of the second chunk of a write carried the
+pattern of the first (start address), its acknowledgement would not cancel it - the entry outlives the request -/
+theorem wrong_pattern_outlives_request_counterexample :
+    let entry : Nat × List UInt8 := (2, headBytes 1 30 ++ [9])           -- the packet of the chunk at address 30
+    let recorded : Retry := [(2, headBytes 1 5 ++ [9])]                  -- ... recorded under the START address 5
+    let ack : List UInt8 := headBytes 1 30 ++ [0]                         -- the device's answer for the chunk at 30
+    retryCancel recorded 2 ack = recorded ∧ retryCancel [entry] 2 ack = [] := by decide
+
 /-! ## Non-vacuity -/
 
 /-- a 41-byte read at address 3 of memory 1 (45 bytes): three chunks, with duplicated replies on the way -/
@@ -810,6 +878,15 @@ example : (crun deckCurrent ⟨St.init, Deck.new 5⟩
 /-- in the domain of the repaired code: requests without failure callbacks, overlapping requests, a disconnect -/
 example : CDom ⟨St.init, Deck.new 5⟩
     [.query 800 1 true, .dread 800 300 0 4 2 false, .dwrite 800 300 0 [1] 3 false false, .mem .disconnect] := by decide
+
+/-- an admissible history on a resending link: a 30-byte write (two chunks) acknowledged chunk by chunk, with a
+duplicate of the first acknowledgement in between; afterwards nothing is pending -/
+example : RAdm true ⟨St.init, []⟩ [.write 1 1 5 (List.replicate 30 7) false false, .pkt 2 [1, 5, 0, 0, 0, 0],
+    .pkt 2 [1, 5, 0, 0, 0, 0], .pkt 2 [1, 30, 0, 0, 0, 0]] := by decide
+example : (rrun true ⟨St.init, []⟩ [.write 1 1 5 (List.replicate 30 7) false false, .pkt 2 [1, 5, 0, 0, 0, 0]]).1.retry =
+    [(2, headBytes 1 30 ++ List.replicate 5 7)] := by decide
+example : (rrun true ⟨St.init, []⟩ [.write 1 1 5 (List.replicate 30 7) false false, .pkt 2 [1, 5, 0, 0, 0, 0],
+    .pkt 2 [1, 5, 0, 0, 0, 0], .pkt 2 [1, 30, 0, 0, 0, 0]]).1.retry = [] := by decide
 
 example : (run Variant.fixed St.init d9Witness).2 = [.send 2 [0, 0, 0, 0, 0, 0x2a], .writeOk 1 0 0] := by decide
 
